@@ -382,6 +382,15 @@ def spec_stats(spec, depth=0):
     return n_opt, nested, zero, kinds
 
 
+def _unserialisable(depth):
+    """a reply chain `depth` quotes deep whose innermost quoted message is an image without a mime type"""
+    m = MessageAttributes(image=ImageAttributes(DownloadableMediaMessageAttributes(None, 1, b"\x00" * 32), 1, 1))
+    for i in range(max(1, depth)):
+        ctx = ContextInfoAttributes(stanza_id="X%d" % i, participant="1@s.whatsapp.net", quoted_message=m)
+        m = MessageAttributes(extended_text=ExtendedTextAttributes("re %d" % i, None, None, None, None, None, ctx))
+    return m
+
+
 def run_case(case):
     out = Outcome()
     spec = case["spec"]
@@ -393,6 +402,17 @@ def run_case(case):
     if zero:
         out.label("explicit_zero_or_empty")
     out.info = {"nt": n_opt >= 2 or nested or zero}
+    if case.get("after_failures"):
+        # what was serialised before - also attempts that failed - has no influence on what a message serialises to: the process
+        # first tries to serialise messages that cannot be (a quoted image whose mime type was never set, at a generated depth)
+        n_f, depth = case["after_failures"]
+        failed = 0
+        for _ in range(n_f):
+            try:
+                conv.message_to_protobytes(_unserialisable(depth))
+            except (TypeError, ValueError):
+                failed += 1
+        out.label("after_failed_serialisations" if failed else "after_failures_none_failed")
     if sub == "attrs":
         try:
             attrs = build_message(spec)
@@ -830,6 +850,8 @@ def case_strategy(sub):
     def build(draw):
         spec = draw(message_strategy(0))
         case = {"sub": sub, "spec": spec}
+        if draw(st.integers(0, 5)) == 0:
+            case["after_failures"] = [draw(st.integers(1, 5)), draw(st.integers(1, 3))]
         if sub == "peer":
             omit = []
             for kind, info in KINDS.items():
